@@ -103,7 +103,7 @@ theorem stepMain_collect {cfg : Cfg} {s : State} {k : Nat} {rest : List (Option 
     split
     · rfl
     · split <;> simp_all
-  · simp only [hh, ↓reduceIte, List.length_append, List.length_singleton]
+  · simp only [hh]
     split
     · rfl
     · split <;> simp_all
